@@ -62,7 +62,7 @@ def make_instance(E, shape, n):
             return new(E, 'Maps', di=None, ds=None, dc=None)
         ki = distinct(E, [E.int('ki%d' % i) for i in range(n)])
         ks = distinct(E, [E.str('ks%d' % i) for i in range(n)])
-        members = [E.member(MOD + '.Color', m) for m in ('RED', 'GREEN', 'BLUE')][:n]
+        members = [E.member(MOD + '.Color', m) for m in ('NONE', 'RED', 'GREEN')][:n]
         return new(E, 'Maps', di=mk_dict([(ki[i], E.str('vi%d' % i)) for i in range(n)]),
                    ds=mk_dict([(ks[i], E.int('vs%d' % i)) for i in range(n)]),
                    dc=mk_dict([(members[i], leaf(E, 'dc%d' % i)) for i in range(n)]))
